@@ -18,7 +18,7 @@ func init() {
 	register(&Prop{
 		ID:    "C12",
 		Level: "exploration",
-		Rule: "case = (capability set with or without LITERAL-, 1..4 rounds of 1..6 pipelined client commands chosen so that RFC 9051 5.5 allows pipelining them: NOOP, STATUS on distinct mailboxes, UID FETCH / UID STORE on disjoint UIDs, CREATE/DELETE/SUBSCRIBE, NAMESPACE, UID SEARCH RETURN answered by ESEARCH with TAG, and ordered classes LIST, SEARCH, EXPUNGE, APPEND with accepted or refused literal; between rounds optionally a SELECT of another mailbox (accepted or refused, with or without [CLOSED]) and an IDLE that the server accepts (updates, DONE) or refuses with a tagged NO/BAD instead of the continuation request; a scripted server that answers the groups in any order the RFC permits (order kept inside an ambiguity class), interleaves unilateral EXISTS / EXPUNGE / FLAGS / PERMANENTFLAGS / FETCH anywhere, and assigns OK / NO / BAD with and without response codes), segmentation and schedule. " +
+		Rule: "case = (capability set with or without LITERAL-, 1..4 rounds of 1..6 pipelined client commands chosen so that RFC 9051 5.5 allows pipelining them: NOOP, STATUS on distinct mailboxes, UID FETCH / UID STORE on disjoint UIDs, CREATE/DELETE/SUBSCRIBE, NAMESPACE, UID SEARCH RETURN answered by ESEARCH with TAG, and ordered classes LIST, SEARCH, EXPUNGE, APPEND with accepted or refused literal; optionally a SELECT refused before LOGIN and a final SELECT answered by BYE and a closed connection; between rounds optionally a SELECT of another mailbox (accepted or refused, with or without [CLOSED]) and an IDLE that the server accepts (updates, DONE) or refuses with a tagged NO/BAD instead of the continuation request; a scripted server that answers the groups in any order the RFC permits (order kept inside an ambiguity class), interleaves unilateral EXISTS / EXPUNGE / FLAGS / PERMANENTFLAGS / FETCH anywhere, and assigns OK / NO / BAD with and without response codes), segmentation and schedule. " +
 			"Oracle: reference interpretation of the exact transcript (per-tag status and data, mailbox summary, connection state). Non-trivial: at least one pipelined round was compared. Distinct: distinct event-log hashes.",
 		Components:   "real: imapclient.Client, internal/imapwire (woven); stub: conformant-but-adversarially-ordered scripted server (independent scanner on the command side), network, clock, scheduler",
 		Assumptions:  []string{"the caller pipelines only what RFC 9051 5.5 allows (Appendix C)", "state and mailbox summary are compared after a NOOP round trip, i.e. when every earlier server line has been processed"},
@@ -164,6 +164,11 @@ func runC12(r *R) {
 	for i := 0; i < nrounds; i++ {
 		idles = append(idles, idleStep{do: t.Choose(3) == 0, status: []string{"OK", "OK", "NO", "BAD"}[t.Choose(4)], nupd: t.Choose(3)})
 	}
+	// before LOGIN the caller may try a SELECT, which the server refuses: the client stays not authenticated; and instead
+	// of LOGOUT the scenario may end with a SELECT that the server answers with "* BYE" and a closed connection
+	preSelect := t.Choose(5) == 0
+	preSelectStatus := []string{"NO", "BAD"}[t.Choose(2)]
+	byeEnd := t.Choose(4) == 0
 	// the server's ordering / interleaving choices are drawn during the run from a private tape
 	// derived from the plan (drawn here so that the plan tape stays the single source of choices)
 	srvSeed := uint64(t.Choose(1 << 30))
@@ -195,6 +200,13 @@ func runC12(r *R) {
 			defer close(srvDone)
 			defer sc.Close()
 			srv.send("* OK [CAPABILITY " + capLine + "] scripted server ready")
+			if preSelect {
+				c, ok := srv.readCommand()
+				if !ok {
+					return
+				}
+				srv.send(c.Tag + " " + preSelectStatus + " log in first")
+			}
 			// LOGIN
 			c, ok := srv.readCommand()
 			if !ok {
@@ -260,6 +272,13 @@ func runC12(r *R) {
 					srv.send(fmt.Sprintf("* %d EXISTS", model.count), "* FLAGS "+flagListText(model.flags), "* OK [PERMANENTFLAGS "+flagListText(model.pflags)+"] ok", "* OK [UIDVALIDITY 8] ok", "* OK [UIDNEXT 3] ok", c.Tag+" OK [READ-WRITE] selected")
 				}
 			}
+			if byeEnd {
+				// the server goes away in the middle of a SELECT
+				if _, ok = srv.readCommand(); ok {
+					srv.send("* BYE shutting down")
+				}
+				return
+			}
 			// LOGOUT or close
 			if c, ok = srv.readCommand(); ok && c.Name == "LOGOUT" {
 				srv.send("* BYE bye", c.Tag+" OK logout")
@@ -269,6 +288,17 @@ func runC12(r *R) {
 		callerDone := make(chan struct{})
 		simrt.GoTask("caller", func() {
 			defer close(callerDone)
+			if preSelect {
+				r.Probe("select_before_login")
+				_, err := c.Select("Early", nil).Wait()
+				var ie *imap.Error
+				if !errors.As(err, &ie) || string(ie.Type) != preSelectStatus {
+					r.Violate("status-mismatch", "Select", "the server refused a SELECT sent before LOGIN with %s, Wait returned %v", preSelectStatus, err)
+				}
+				if st, mb := c.State(), c.Mailbox(); st != imap.ConnStateNotAuthenticated || mb != nil {
+					r.Violate("state-mirror", "refused select before login", "after a SELECT that the server refused before any LOGIN the client reports state %v, mailbox %+v; the transcript implies not authenticated", st, mb)
+				}
+			}
 			if err := c.Login("u", "p").Wait(); err != nil {
 				r.Violate("call-failed", "Login", "%v", err)
 				return
@@ -364,6 +394,17 @@ func runC12(r *R) {
 				}
 			}
 			finalState, finalMbox = c.State(), c.Mailbox()
+			if byeEnd {
+				r.Probe("bye_during_select")
+				if _, err := c.Select("Gone", nil).Wait(); err == nil {
+					r.Violate("status-mismatch", "Select", "the server answered a SELECT with '* BYE' and closed the connection, Wait returned nil")
+				}
+				if st, mb := c.State(), c.Mailbox(); st != imap.ConnStateLogout || mb != nil {
+					r.Violate("state-mirror", "bye during select", "the server said BYE and closed the connection while a SELECT was pending; the client reports state %v, mailbox %+v; the transcript implies logout", st, mb)
+				}
+				c.Close()
+				return
+			}
 			c.Logout().Wait()
 			c.Close()
 		})
